@@ -66,3 +66,36 @@ mod vx_kani {
         assert!(r.len() == 0);
     }
 }
+
+// ---- bounded stand-ins for the name order (R11 is an assumption of the Verus side) --------------------------------
+// K7 (BOUNDED: names of exactly 2 ASCII bytes each, all 128^4 combinations): on ASCII names compare_names is
+// shortlex over the upper-cased bytes.  K8 (BOUNDED: the listed pairs): names of different UTF-16 length are ordered by
+// that length, also when they contain supplementary-plane characters (the general path returns before any case mapping).
+#[cfg(kani)]
+mod vx_kani_names {
+    use crate::internal::path::compare_names;
+    use std::cmp::Ordering;
+
+    fn up(b: u8) -> u8 { if b >= b'a' && b <= b'z' { b - 32 } else { b } }
+
+    #[kani::proof]
+    #[kani::unwind(4)]
+    fn k_names_ascii_2() {
+        let a: [u8; 2] = kani::any();
+        let b: [u8; 2] = kani::any();
+        kani::assume(a[0] < 128 && a[1] < 128 && b[0] < 128 && b[1] < 128);
+        let sa = std::str::from_utf8(&a).unwrap();
+        let sb = std::str::from_utf8(&b).unwrap();
+        let want = match up(a[0]).cmp(&up(b[0])) { Ordering::Equal => up(a[1]).cmp(&up(b[1])), o => o };
+        assert!(compare_names(sa, sb) == want);
+    }
+    #[kani::proof]
+    #[kani::unwind(8)]
+    fn k_names_len_first() {
+        const T: [(&str, usize); 8] = [("a", 1), ("\u{e9}", 1), ("ab", 2), ("\u{10000}", 2), ("\u{e9}\u{e9}", 2), ("abc", 3), ("\u{10000}x", 3), ("\u{e9}\u{10000}", 3)];
+        let i: usize = kani::any();
+        let j: usize = kani::any();
+        kani::assume(i < 8 && j < 8 && T[i].1 != T[j].1);
+        assert!(compare_names(T[i].0, T[j].0) == T[i].1.cmp(&T[j].1));
+    }
+}
